@@ -113,3 +113,13 @@ Theorem C14_process_enable_exact : forall a a0 p p0 ms tb cd,
       (filter (fun pd => existsb (N.eqb (d_code (snd pd))) en) (vr_diags v0)).
 Proof. exact main_enable_keeps_exactly. Qed.
 Print Assumptions C14_process_enable_exact.
+
+(* The list subcommand does not depend on --enable/--disable: two accepted command lines that differ only there list the same files. *)
+Theorem C14_list_ignores_validator_flags : forall a a' p p' fs tb cd,
+  plan_of a = Ok p -> plan_of a' = Ok p' ->
+  pl_scan p = pl_scan p' -> pl_star p = pl_star p' -> pl_diff p = pl_diff p' -> pl_ext p = pl_ext p' ->
+  ca_ign_post a = ca_ign_post a' ->
+  ca_list a = true -> ca_list a' = true ->
+  main_model a fs tb cd = main_model a' fs tb cd.
+Proof. exact list_ignores_validator_flags. Qed.
+Print Assumptions C14_list_ignores_validator_flags.
